@@ -131,10 +131,12 @@ Definition dec2flt (txt : list N) : option N :=
 
 (* ---------- double -> shortest decimal text (Rust Display for f64) ---------- *)
 (* smallest k with v < 10^k, for v = n/d > 0 *)
+Definition lt_pow10 (n d k : Z) : bool :=            (* n/d < 10^k, k of either sign *)
+  if 0 <=? k then n <? d * 10 ^ k else n * 10 ^ (- k) <? d.
 Fixpoint dec_exp_up (fuel : nat) (n d k : Z) : Z :=
-  match fuel with O => k | S f => if n <? d * 10 ^ k then k else dec_exp_up f n d (k + 1) end.
+  match fuel with O => k | S f => if lt_pow10 n d k then k else dec_exp_up f n d (k + 1) end.
 Fixpoint dec_exp_down (fuel : nat) (n d k : Z) : Z :=   (* largest k with 10^(k-1) <= v *)
-  match fuel with O => k | S f => if d * 10 ^ (k - 1) <=? n then k else dec_exp_down f n d (k - 1) end.
+  match fuel with O => k | S f => if negb (lt_pow10 n d (k - 1)) then k else dec_exp_down f n d (k - 1) end.
 (* ratio helpers with possibly negative power of ten *)
 Definition mul_pow10 (n d p : Z) : Z * Z := if 0 <=? p then (n * 10 ^ p, d) else (n, d * 10 ^ (- p)).
 
